@@ -306,13 +306,13 @@ func runC12Conc(r *ev.Run) {
 		r.Set("race_rule", "free-running race-detector pass over the concurrency scenarios of the conc phase (same thread bodies as ordinary goroutines in a -race build); complements the cooperative exploration, which cannot see unsynchronised accesses between scheduling points")
 		r.Finish()
 	}
-	if r.Thorough() && r.Deadline.IsZero() {
-		// internal deadline: an unfinished enumeration is reported as exhaustive=false, not as a failure
-		r.Deadline = r.Start.Add(13 * time.Minute)
-	}
 	r.Fork(ev.Workers())
 	scs := c12concScenarios(r, dir)
 	conc.Explore(r, "kvmc-conc", scs)
+	if r.Thorough() {
+		// beyond the claimed bound: one more preemption for as long as the time budget lasts
+		conc.ExploreExtra(r, "kvmc-conc", scs, r.Start.Add(12*time.Minute))
+	}
 	os.RemoveAll(dir)
 	r.Set("conc_rule", "concurrent restore: 2-3 controlled threads call RestoreChunk of the real restorer for disjoint chunk lists of a 2/3/4-chunk checkpoint (with a corrupted copy first in the retry scenarios) into a fresh badger and pathbadger database; every schedule with at most conc_preemption_bound preemptions at the scheduling points (restorer and node-database locks, every database read and durable write) is executed; oracle: genuine chunks accepted, corrupted rejected, completion signalled exactly once and to the caller that finishes last, unfinished restore never visible, restored root finalizes and reads back exactly the source contents")
 	b := 2
